@@ -14,6 +14,10 @@ package main
 //	    | ( enum STR+ ) | ( lit J+ )
 //	    | ( opt S ) | ( nul S )
 //	    | ( obj MODE CATCH PART ( cks SZ* ) ( STR S )* )     MODE ::= strip|strict|loose  CATCH ::= - | S   PART ::= p | -
+//	    | ( objf MODE CATCH ( ops OP* ) ( cks SZ* ) ( STR S )* )   an object with a call history, top level (or under lazy) only
+//	                               OP ::= ( part STR* ) | ( req STR* )      Partial(keys…) / Required(keys…), in call order
+//	                               PART `p` / `objf` are written when the tree's converter ignores the object's own state (probed:
+//	                               legacyObj), `P` / `objF` when it asks the object (after the fix C07-object-optionality)
 //	    | ( slice S SZ* )          SZ ::= ( min N ) | ( max N ) | ( len N )
 //	    | ( arr REST ( cks SZ* ) S* ) | ( tup REST ( cks SZ* ) S* )     REST ::= - | S
 //	    | ( rec S S SZ* )
@@ -55,7 +59,17 @@ type Sch struct {
 	Items  []*Sch // arr/tup items, union/xor members, and (2)
 	Rest   *Sch
 	Name   string // id: registry ID
+	Ops    []ObjOp // obj: Partial / Required calls, in order (applied after WithCatchall, before the size checks)
 }
+
+// ObjOp: one Partial(keys…) / Required(keys…) call; no keys = the call without arguments.
+type ObjOp struct {
+	Req  bool
+	Keys []string
+}
+
+// legacyObj: ToJSONSchema of the tree under test ignores the object's Partial / Required state (probed at start-up).
+var legacyObj bool
 
 type J struct {
 	T  string // n b q s a o
@@ -141,9 +155,36 @@ func (s *Sch) String() string {
 		return "( lazy " + s.Kind + " " + s.Elem.String() + " )"
 	case "obj":
 		var b strings.Builder
+		if len(s.Ops) > 0 {
+			if legacyObj {
+				b.WriteString("( objf ")
+			} else {
+				b.WriteString("( objF ")
+			}
+			b.WriteString(s.Mode + " " + orDash(s.Catch) + " ( ops")
+			for _, op := range s.Ops {
+				if op.Req {
+					b.WriteString(" ( req")
+				} else {
+					b.WriteString(" ( part")
+				}
+				for _, k := range op.Keys {
+					b.WriteString(" " + encStr(k))
+				}
+				b.WriteString(" )")
+			}
+			b.WriteString(" ) ( cks" + cks(s.Cks) + " )")
+			for _, f := range s.Fields {
+				b.WriteString(" ( " + encStr(f.Name) + " " + f.S.String() + " )")
+			}
+			return b.String() + " )"
+		}
 		p := "-"
 		if s.Part {
-			p = "p"
+			p = "P"
+			if legacyObj {
+				p = "p"
+			}
 		}
 		b.WriteString("( obj " + s.Mode + " " + orDash(s.Catch) + " " + p + " ( cks" + cks(s.Cks) + " )")
 		for _, f := range s.Fields {
